@@ -10,7 +10,8 @@ def run(ctx):
     ctx.assumptions += ["a definition = the text from `def Name` to the next `def`; two definitions are equal iff their texts are (SHA-256)",
                         "identifiers are collected from `SemaphoreMTB.X`, `open SemaphoreMTB renaming X`, `open SemaphoreMTB (X ...)` in Main.lean and FormalVerification/*.lean"]
     cli = ctx.build_cli()
-    edims = [[30, 4], [3, 2], [30, 3]] if ctx.quick else [[30, 4], [3, 2], [30, 3], [1, 1], [2, 1], [10, 4], [16, 8], [20, 19], [31, 2], [4, 3]]
+    # batch sizes follow the hash input's block structure too (insertion batch 7 = three Keccak blocks, 16 / 33 = long input vectors)
+    edims = [[30, 4], [3, 2], [30, 3], [3, 16]] if ctx.quick else [[30, 4], [3, 2], [30, 3], [1, 1], [2, 1], [10, 4], [16, 8], [20, 19], [31, 2], [4, 3], [3, 16], [2, 33], [16, 32], [3, 7]]
     procs, reps = ([1, 16], 1) if ctx.quick else ([1, 2, 16], 2)
     pl, mod, reps = artlib.plan(ctx, [], ["r1cs"], procs, reps, edims)
     keep = os.path.join(ctx.scratch, "extracted-30-4.lean")
@@ -37,7 +38,10 @@ def run(ctx):
         if r["event"] == "extract":
             prev = [x for x in recs[:bad - 1] if x["event"] == "extract" and (x["depth"], x["batch"]) == (r["depth"], r["batch"])]
             names = sorted(n for n in set(r["defs"]) | set(prev[0]["defs"] if prev else {}) if prev and prev[0]["defs"].get(n) != r["defs"].get(n))
-            why = ("extraction fails: " + r["err"]) if r["err"] else "extraction at (%d,%d) is not a function of depth and batch: %d definitions differ or are missing between two runs (%s vs %s): %s" % (
+            sh = r.get("shape") or {}
+            incomplete = not r["err"] and not (sh.get("closed") and sh.get("mains") == ["DeletionMbuCircuit", "InsertionMbuCircuit"] and sh.get("dangling") == 0)
+            why = ("extraction fails: " + r["err"]) if r["err"] else ("extraction at (%d,%d) reports success but the model is incomplete: namespace closed=%s, top-level circuits=%s, gadgets used but not defined=%s" % (
+                r["depth"], r["batch"], sh.get("closed"), sh.get("mains"), sh.get("dangling"))) if incomplete else "extraction at (%d,%d) is not a function of depth and batch: %d definitions differ or are missing between two runs (%s vs %s): %s" % (
                 r["depth"], r["batch"], len(names), prev[0].get("via") if prev else "?", r.get("via"), names[:4])
             ctx.violation(why, dict(kind="c17", rejected={k: v for k, v in r.items() if k != "defs"}))
         else:
